@@ -46,6 +46,11 @@ def _is_enum(cls):
     return any((b or '').split('.')[-1] in ('Enum', 'IntEnum', 'StrEnum', 'Flag', 'IntFlag') for b in cls.base_exprs)
 
 
+_TYPE_NAMES = {'int', 'float', 'complex', 'bool', 'str', 'bytes', 'list', 'tuple', 'dict', 'set', 'frozenset', 'number', 'ndarray',
+               'integer', 'floating', 'complexfloating', 'generic', 'Number', 'Real', 'Integral', 'Complex', 'bool_', 'inexact',
+               'signedinteger', 'unsignedinteger', 'Sequence', 'Iterable', 'Mapping'}
+
+
 def _constant_expr(node):
     """literals combined by arithmetic with names / dotted names (other constants), tuples of those; no calls"""
     if isinstance(node, ast.Constant):
@@ -238,9 +243,25 @@ class ExprMixin:
                     pass
                 finally:
                     self.cur = prev
+            if isinstance(val, ast.Call) and isinstance(val.func, ast.Name) and namedtuple_fields(m, val.func.id) and \
+                    all(_table_expr(a_) for a_ in val.args) and all(k_.arg is not None and _table_expr(k_.value) for k_ in val.keywords):
+                # NAME = Settings(order=3, mode='nearest') with Settings a NamedTuple of the module: a constant record
+                prev, self.cur = self.cur, _ModuleScope(m, self.cur)
+                try:
+                    from .state import State
+                    v_ = self._eval_module_value(val, State())
+                    if isinstance(v_, Tup):
+                        return v_
+                except Exception:
+                    pass
+                finally:
+                    self.cur = prev
             int_tuple = isinstance(val, ast.Tuple) and val.elts and all(
                 isinstance(e_, ast.Constant) and type(e_.value) is int for e_ in val.elts)   # _AXES = (0, 1): immutable
-            if _constant_expr(val) or int_tuple or (getattr(self, 'literal_tables', False) and isinstance(val, (ast.Dict, ast.Tuple, ast.List, ast.Set))
+            type_tuple = isinstance(val, ast.Tuple) and val.elts and all(
+                isinstance(e_, (ast.Name, ast.Attribute)) and (dotted(e_) or '').split('.')[-1] in _TYPE_NAMES
+                for e_ in val.elts)                 # _NUMBERS = (int, float, np.number): the second argument of isinstance
+            if _constant_expr(val) or int_tuple or type_tuple or (getattr(self, 'literal_tables', False) and isinstance(val, (ast.Dict, ast.Tuple, ast.List, ast.Set))
                                        and _table_expr(val)):
                 # a module constant derived from literals and other constants (e.g. -2j*pi): its value
                 prev, self.cur = self.cur, _ModuleScope(m, self.cur)
@@ -667,6 +688,12 @@ class ExprMixin:
                 return Poly.const(1)
             if name == 'T':
                 return base
+        if name in ('size', 'shape') and isinstance(base, Poly) and base.single_atom() is not None:
+            ba = base.single_atom()
+            if ba[0] == 'app' and ba[1] in ('fft.fftfreq', 'fft.rfftfreq', 'arange') and len(ba[2]) >= 1 and isinstance(ba[2][0], Poly) \
+                    and (ba[1] == 'fft.fftfreq' or len(ba[2]) == 1) and not any(isinstance(x, Tup) and x.kind == 'kw' for x in ba[2][:1]):
+                # np.fft.fftfreq(n) and np.arange(n) have n samples
+                return ba[2][0] if name == 'size' else Tup([ba[2][0]])
         if isinstance(base, Poly) and base.const_value() is not None:
             if name == 'size':
                 return Poly.const(1)
